@@ -262,3 +262,15 @@ package frame
 //@   ensures  [encoded-once-for-the-frames-own-version] logLen() == 1 && logCallee(0, "(*message.ReadWriter).Write") && logArgIsPtr(0, 0, mp) &&
 //@              logArg(0, 1) == any(old(specFrameMessage(fr))) && logArgBool(0, 2) == SpecIsV2(fr) && specFrameMessage(fr) == any(logRetAny(0, 0))
 //@   modifies ghost:log, *specMessageField(fr)
+
+// the combined reader/writer: every option goes to the half it belongs to
+//@ func (*ReadWriter).Initialize
+//@   requires rw != nil
+//@   ensures  [needs-a-transport] (err != nil) == (rw.ByteReadWriter == nil)
+//@   ensures  [reader-half] err == nil ==> rw.Reader != nil && rw.Reader.BufByteReader != nil && rw.Reader.InKey == rw.InKey &&
+//@              rw.Reader.DialectRW == rw.DialectRW
+//@   ensures  [writer-half] err == nil ==> rw.Writer != nil && SpecWriterReady(rw.Writer) && rw.Writer.ByteWriter == io.Writer(rw.ByteReadWriter) &&
+//@              rw.Writer.DialectRW == rw.DialectRW && rw.Writer.OutKey == rw.OutKey && rw.Writer.OutVersion == rw.OutVersion &&
+//@              rw.Writer.OutSystemID == rw.OutSystemID && rw.Writer.OutSignatureLinkID == rw.OutSignatureLinkID &&
+//@              (rw.OutComponentID >= 1 ==> rw.Writer.OutComponentID == rw.OutComponentID) && (rw.OutComponentID < 1 ==> rw.Writer.OutComponentID == 1)
+//@   modifies rw.Reader, rw.Writer
